@@ -21,6 +21,18 @@
 //	release p                let the parked operation of p continue
 //	ret                      (recorded only) p, start
 //
+// A reset line with "via": "master" (kind memory or snowflake) runs the same script against REAL master
+// servers (weed/server, harness/cluster/realmaster.go), one per master name: hb / setmax = a full heartbeat
+// through MasterServer.SendHeartbeat (in-memory stream) of the volume server that holds vol (one server and
+// one collection per volume; setmax: a server without volumes) carrying MaxFileKey; next = MasterServer.Assign
+// for the volume's collection, the key range is read from the returned file id and count; leader = every
+// heartbeat stream breaks (the servers re-dial with their next heartbeat), fresh: a new MasterServer object;
+// nextvid / volreg = NextVolumeId of the master's topology / an incremental heartbeat. Same events.
+// The master's sequencer (exported field Topo.Sequence) is wrapped in a gate: `call op=hb gate=true` parks the
+// heartbeat handler at the entry of Sequence.SetMax; `call op=next bg=true` then issues a real Assign while the
+// handler is parked (not waited for: Assign polls while nothing is writable); `release` lets the handler go on
+// and waits for it and for every such assignment. An Assign that is refused is recorded as ret err=true.
+//
 // Keys are recorded through an order preserving map that caps gaps at 2^20
 // (identity for small values; snowflake ids are ~2^60 and TLC integers 32 bit).
 package main
@@ -28,6 +40,7 @@ package main
 import (
 	"bufio"
 	"bytes"
+	"context"
 	"fmt"
 	"os"
 	"os/exec"
@@ -44,6 +57,7 @@ import (
 	"github.com/chrislusf/seaweedfs/weed/storage/needle"
 	"github.com/chrislusf/seaweedfs/weed/topology"
 
+	"verifharness/cluster"
 	"verifharness/tr"
 )
 
@@ -60,6 +74,44 @@ type asg struct {
 type parkedOp struct {
 	done chan struct{}
 	v    *view
+	g    *gateSeq
+}
+
+// gateSeq wraps the sequencer of a real master: when armed, the next SetMax parks at its entry until released.
+type gateSeq struct {
+	sequence.Sequencer
+	mu       sync.Mutex
+	parkedCh chan struct{}
+	goCh     chan struct{}
+}
+
+func (g *gateSeq) arm() chan struct{} {
+	g.mu.Lock()
+	defer g.mu.Unlock()
+	g.parkedCh, g.goCh = make(chan struct{}), make(chan struct{})
+	return g.parkedCh
+}
+
+func (g *gateSeq) SetMax(v uint64) {
+	g.mu.Lock()
+	p, r := g.parkedCh, g.goCh
+	g.parkedCh = nil
+	g.mu.Unlock()
+	if p != nil {
+		close(p)
+		<-r
+	}
+	g.Sequencer.SetMax(v)
+}
+
+func (g *gateSeq) release() {
+	g.mu.Lock()
+	r := g.goCh
+	g.parkedCh, g.goCh = nil, nil
+	g.mu.Unlock()
+	if r != nil {
+		close(r)
+	}
 }
 
 type execution struct {
@@ -74,6 +126,16 @@ type execution struct {
 	used    map[string]map[uint64]bool
 	asgs    []asg
 	parked  map[int]*parkedOp
+
+	// via master: real master servers and the open heartbeat streams per master and volume server
+	via   string
+	vols  []string
+	group *cluster.MasterGroup
+	ms    map[string]*cluster.RealMaster
+	hbs   map[string]map[string]*cluster.HBStream
+	hbMu  sync.Mutex
+	gates map[string]*gateSeq
+	bg    []chan struct{} // assignments issued while a heartbeat handler is parked
 
 	mu     sync.Mutex
 	events []tr.Ev
@@ -116,6 +178,9 @@ func (s *stubRaft) Do(c raft.Command) (interface{}, error) {
 }
 
 func (x *execution) topo(m string) *topology.Topology {
+	if x.via == "master" {
+		return x.ms[m].MS.Topo
+	}
 	if t, ok := x.topos[m]; ok {
 		return t
 	}
@@ -160,7 +225,143 @@ func (x *execution) newSeq(m string) sequence.Sequencer {
 	return nil
 }
 
+// ---------------------------------------------------------------- via master
+
+func (x *execution) newMaster(m string) {
+	idx := 0
+	for i, n := range x.masters {
+		if n == m {
+			idx = i
+		}
+	}
+	st := ""
+	switch x.kind {
+	case "memory":
+	case "snowflake":
+		st = "snowflake"
+	default:
+		tr.Fatal("sequencer kind %q cannot run inside a real master here", x.kind)
+	}
+	x.ms[m] = cluster.NewRealMaster(cluster.RealMasterOptions{Name: m, Port: 9333 + idx, SequencerType: st, Group: x.group})
+	x.hbs[m] = map[string]*cluster.HBStream{}
+	x.gates[m] = &gateSeq{Sequencer: x.ms[m].MS.Topo.Sequence}
+	x.ms[m].MS.Topo.Sequence = x.gates[m]
+}
+
+// volume vols[i] has id i+1, is alone in the collection of its name and lives on its own volume server
+func (x *execution) volIndex(vol string) int {
+	for i, v := range x.vols {
+		if v == vol {
+			return i
+		}
+	}
+	tr.Fatal("unknown volume %q", vol)
+	return 0
+}
+
+// push sends one heartbeat of volume server srv to master m through the real SendHeartbeat handler
+func (x *execution) push(m, srv string, ip string, hb *master_pb.Heartbeat) {
+	x.hbMu.Lock()
+	s := x.hbs[m][srv]
+	if s == nil || s.Returned() {
+		s = x.ms[m].OpenHeartbeat(ip, 50000)
+		x.hbs[m][srv] = s
+	}
+	x.hbMu.Unlock()
+	hb.Ip, hb.Port, hb.PublicUrl = ip, 8080, srv
+	hb.MaxVolumeCounts = map[string]uint32{"": 100}
+	switch res := s.Push(hb); res {
+	case "ok":
+	case "panic":
+		panic(s.Panic)
+	default:
+		panic(fmt.Sprintf("%s: SendHeartbeat(%s -> %s): %v", res, srv, m, s.Err))
+	}
+}
+
+// masterSetMax: a full heartbeat carrying MaxFileKey = v, of the server holding vol ("" = a server without volumes)
+func (x *execution) masterSetMax(m, vol string, v uint64) {
+	hb := &master_pb.Heartbeat{MaxFileKey: v}
+	if vol == "" {
+		hb.HasNoVolumes = true
+		x.push(m, "s0", "127.0.2.100", hb)
+		return
+	}
+	i := x.volIndex(vol)
+	hb.Volumes = []*master_pb.VolumeInformationMessage{{Id: uint32(i + 1), Collection: vol, Size: 100, FileCount: 1,
+		Version: uint32(needle.CurrentVersion)}}
+	x.push(m, "s-"+vol, fmt.Sprintf("127.0.2.%d", i+1), hb)
+}
+
+// masterNext: a real Assign. sequential: the script must respect the enabling rule and a refusal is unexpected (panic);
+// otherwise (issued next to other operations) a refusal is an observation (refused = true).
+func (x *execution) masterNext(m, vol string, c uint64, sequential bool) (start, cnt uint64, refused bool) {
+	i := x.volIndex(vol)
+	if sequential && len(x.ms[m].MS.Topo.Lookup(vol, needle.VolumeId(i+1))) == 0 {
+		// Assign would poll for ten seconds: the script broke the system's enabling rule
+		tr.Fatal("script asks master %s for volume %s, which is not registered there", m, vol)
+	}
+	var resp *master_pb.AssignResponse
+	var err error
+	pan, late := tr.GuardT(15*time.Second, func() {
+		resp, err = x.ms[m].MS.Assign(context.Background(), &master_pb.AssignRequest{Count: c, Collection: vol, Replication: "000"})
+	})
+	if pan != "" {
+		panic(pan)
+	}
+	if late {
+		panic("timeout: Assign")
+	}
+	if err != nil || resp.Error != "" {
+		if !sequential {
+			return 0, c, true
+		}
+		panic(fmt.Sprintf("Assign failed: %v %s", err, resp.GetError()))
+	}
+	f, perr := needle.ParseFileIdFromString(resp.Fid)
+	if perr != nil {
+		panic("Assign returned an unparsable file id " + resp.Fid)
+	}
+	if int(f.VolumeId) != i+1 {
+		panic(fmt.Sprintf("Assign for collection %s returned volume %d", vol, f.VolumeId))
+	}
+	return uint64(f.Key), resp.Count, false
+}
+
+func (x *execution) closeStreams() {
+	for _, m := range x.masters {
+		x.hbMu.Lock()
+		ss := x.hbs[m]
+		x.hbs[m] = map[string]*cluster.HBStream{}
+		x.hbMu.Unlock()
+		for _, s := range ss {
+			if res := s.Close(); res != "returned" {
+				panic(fmt.Sprintf("%s: closing a heartbeat stream of %s: %s", res, m, s.Panic))
+			}
+		}
+	}
+}
+
+// setMax / nextId: the two sequencer operations, on the bare object or through the master
+func (x *execution) setMax(m, vol string, v uint64) {
+	if x.via == "master" {
+		x.masterSetMax(m, vol, v)
+		return
+	}
+	x.seqs[m].SetMax(v)
+}
+
+func (x *execution) nextId(m, vol string, c uint64, sequential bool) (start, cnt uint64, refused bool) {
+	if x.via == "master" {
+		return x.masterNext(m, vol, c, sequential)
+	}
+	return x.seqs[m].NextFileId(c), c, false
+}
+
 func (x *execution) close() {
+	for _, m := range x.ms {
+		m.Close()
+	}
 	for _, s := range x.seqs {
 		if es, ok := s.(*sequence.EtcdSequencer); ok {
 			es.VerifClose()
@@ -210,15 +411,14 @@ func (x *execution) perform(e tr.Ev) tr.Ev {
 		x.mu.Lock()
 		v := x.maxUsed(vol)
 		x.mu.Unlock()
-		x.seqs[m].SetMax(v)
+		x.setMax(m, vol, v)
 		e["v"] = key(v)
 	case "setmax":
 		v := uint64(tr.I(e, "v"))
-		x.seqs[m].SetMax(v)
+		x.setMax(m, "", v)
 		e["v"] = key(v)
 	case "next":
-		c := count(e)
-		start := x.seqs[m].NextFileId(c)
+		start, c, _ := x.nextId(m, tr.S(e, "vol"), count(e), true)
 		x.mu.Lock()
 		e["a"] = len(x.asgs)
 		x.asgs = append(x.asgs, asg{tr.S(e, "vol"), start, c})
@@ -228,6 +428,10 @@ func (x *execution) perform(e tr.Ev) tr.Ev {
 	case "write":
 		a := tr.I(e, "a")
 		if a < 0 || a >= len(x.asgs) {
+			if x.via == "master" {
+				// the schedule counted an assignment that this master refused: nothing to write
+				return nil
+			}
 			tr.Fatal("write refers to assignment %d of %d", a, len(x.asgs))
 		}
 		g := x.asgs[a]
@@ -239,7 +443,12 @@ func (x *execution) perform(e tr.Ev) tr.Ev {
 		e["vol"] = g.vol
 		e["k"] = key(k)
 	case "leader":
-		if tr.B(e, "fresh") {
+		if x.via == "master" {
+			x.closeStreams()
+			if tr.B(e, "fresh") {
+				x.newMaster(m)
+			}
+		} else if tr.B(e, "fresh") {
 			x.seqs[m] = x.newSeq(m)
 			if t, ok := x.topos[m]; ok {
 				t.Sequence = x.seqs[m]
@@ -255,6 +464,17 @@ func (x *execution) perform(e tr.Ev) tr.Ev {
 			e["id"] = int(id)
 		}
 	case "volreg":
+		if x.via == "master" {
+			x.hbMu.Lock()
+			s0 := x.hbs[m]["s0"]
+			x.hbMu.Unlock()
+			if s0 == nil || s0.Returned() {
+				x.push(m, "s0", "127.0.2.100", &master_pb.Heartbeat{HasNoVolumes: true})
+			}
+			x.push(m, "s0", "127.0.2.100", &master_pb.Heartbeat{NewVolumes: []*master_pb.VolumeShortInformationMessage{
+				{Id: uint32(tr.I(e, "id")), Version: uint32(needle.CurrentVersion)}}})
+			break
+		}
 		t := x.topo(m)
 		t.IncrementalSyncDataNodeRegistration([]*master_pb.VolumeShortInformationMessage{
 			{Id: uint32(tr.I(e, "id")), Version: uint32(needle.CurrentVersion)}}, nil, x.dns[m])
@@ -274,7 +494,7 @@ func (x *execution) callOp(e tr.Ev) {
 	if !ok {
 		n = map[string]interface{}{"c": 0, "s": 0}
 	}
-	call := tr.Ev{"ev": "call", "p": p, "op": op, "m": m, "vol": tr.S(e, "vol"), "n": n, "gate": tr.B(e, "gate")}
+	call := tr.Ev{"ev": "call", "p": p, "op": op, "m": m, "vol": tr.S(e, "vol"), "n": n, "gate": tr.B(e, "gate"), "bg": tr.B(e, "bg")}
 	var c uint64
 	var v uint64
 	x.mu.Lock()
@@ -293,22 +513,25 @@ func (x *execution) callOp(e tr.Ev) {
 	x.events = append(x.events, call)
 	x.mu.Unlock()
 	var start uint64
+	var refused bool
 	pan := tr.Guard(func() {
 		switch op {
 		case "next":
-			start = x.seqs[m].NextFileId(c)
+			start, c, refused = x.nextId(m, tr.S(e, "vol"), c, false)
+		case "hb":
+			x.setMax(m, tr.S(e, "vol"), v)
 		default:
-			x.seqs[m].SetMax(v)
+			x.setMax(m, "", v)
 		}
 	})
 	x.mu.Lock()
 	if pan != "" {
 		x.events = append(x.events, tr.Ev{"ev": "panic", "p": p, "msg": pan})
 	} else {
-		if op == "next" {
+		if op == "next" && !refused {
 			x.asgs = append(x.asgs, asg{tr.S(e, "vol"), start, c})
 		}
-		x.events = append(x.events, tr.Ev{"ev": "ret", "p": p, "start": key(start)})
+		x.events = append(x.events, tr.Ev{"ev": "ret", "p": p, "start": key(start), "err": refused})
 	}
 	x.mu.Unlock()
 }
@@ -344,7 +567,10 @@ func (x *execution) gated(e tr.Ev) {
 	m := tr.S(e, "m")
 	po := &parkedOp{done: make(chan struct{})}
 	var parked chan struct{}
-	if v, ok := x.views[m]; ok {
+	if g, ok := x.gates[m]; ok && x.via == "master" {
+		po.g = g
+		parked = g.arm()
+	} else if v, ok := x.views[m]; ok {
 		po.v = v
 		parked = v.arm()
 	}
@@ -360,8 +586,45 @@ func (x *execution) gated(e tr.Ev) {
 	case <-parked:
 		x.parked[p] = po
 	case <-po.done:
+		po.free()
+	}
+}
+
+func (po *parkedOp) free() {
+	if po.g != nil {
+		po.g.release()
+	} else {
 		po.v.release()
 	}
+}
+
+// background: an operation issued while another one is parked; not waited for here (a real Assign polls while
+// nothing is writable), only given a moment to get going; joined at the next release / the end of the execution
+func (x *execution) background(e tr.Ev) {
+	done := make(chan struct{})
+	x.bg = append(x.bg, done)
+	// several of them can be pending at once: each gets a process number of its own
+	e = tr.Copy(e)
+	e["p"] = 100 + len(x.bg)
+	go func() {
+		x.callOp(e)
+		close(done)
+	}()
+	select {
+	case <-done:
+	case <-time.After(100 * time.Millisecond):
+	}
+}
+
+func (x *execution) joinBackground() {
+	for _, d := range x.bg {
+		select {
+		case <-d:
+		case <-time.After(30 * time.Second):
+			x.log(tr.Ev{"ev": "panic", "p": 0, "msg": "timeout: an operation issued in the background did not return"})
+		}
+	}
+	x.bg = nil
 }
 
 // releaseOp lets the parked operation of p continue. again: its next Get (the re-read after a
@@ -371,7 +634,7 @@ func (x *execution) releaseOp(p int, again bool) {
 	if !ok {
 		return
 	}
-	if again {
+	if again && po.v != nil {
 		parked := po.v.rearm()
 		select {
 		case <-parked:
@@ -382,9 +645,10 @@ func (x *execution) releaseOp(p int, again bool) {
 			return
 		}
 	}
-	po.v.release()
+	po.free()
 	<-po.done
 	delete(x.parked, p)
+	x.joinBackground()
 }
 
 // flush: normalise keys (order preserving, gaps capped) and write the events
@@ -438,7 +702,9 @@ func (x *execution) flush(w *tr.Writer) {
 
 func runExec(ex []tr.Ev, w *tr.Writer) {
 	r := ex[0]
-	x := &execution{kind: tr.S(r, "kind"), masters: tr.Strs(r["masters"]), seqs: map[string]sequence.Sequencer{},
+	x := &execution{kind: tr.S(r, "kind"), via: tr.S(r, "via"), vols: tr.Strs(r["vols"]), group: cluster.NewMasterGroup(),
+		ms: map[string]*cluster.RealMaster{}, hbs: map[string]map[string]*cluster.HBStream{}, gates: map[string]*gateSeq{},
+		masters: tr.Strs(r["masters"]), seqs: map[string]sequence.Sequencer{},
 		views: map[string]*view{}, dirs: map[string]string{}, store: newFakeStore(), topos: map[string]*topology.Topology{},
 		dns: map[string]*topology.DataNode{}, used: map[string]map[uint64]bool{}, parked: map[int]*parkedOp{}}
 	defer x.close()
@@ -455,7 +721,11 @@ func runExec(ex []tr.Ev, w *tr.Writer) {
 		pre = append(pre, tr.Ev{"vol": vol, "keys": ks})
 	}
 	for _, m := range x.masters {
-		x.seqs[m] = x.newSeq(m)
+		if x.via == "master" {
+			x.newMaster(m)
+		} else {
+			x.seqs[m] = x.newSeq(m)
+		}
 	}
 	reset := tr.Copy(r)
 	reset["norm"] = "gapcap"
@@ -478,6 +748,11 @@ func runExec(ex []tr.Ev, w *tr.Writer) {
 		case "call":
 			if tr.B(e, "gate") {
 				x.gated(e)
+				i++
+				continue
+			}
+			if tr.B(e, "bg") {
+				x.background(e)
 				i++
 				continue
 			}
@@ -508,12 +783,17 @@ func runExec(ex []tr.Ev, w *tr.Writer) {
 			x.log(tr.Ev{"ev": "panic", "p": 0, "msg": pan})
 			break
 		}
+		if rec == nil {
+			i++
+			continue
+		}
 		x.log(rec)
 		i++
 	}
 	for p := range x.parked {
 		x.releaseOp(p, false)
 	}
+	x.joinBackground()
 	x.flush(w)
 }
 
